@@ -65,6 +65,7 @@ func Run(o *drv.Out) {
 	t0 := time.Now()
 	dialAttribution(o, base)
 	malformedFrameCases(o, base)
+	slowConsumerCases(o, base)
 	interleavedTopicsFirstLarge(o, base)
 	concurrentSmallAndLarge(o, base)
 	o.Extra["c18_interleave_s"] = time.Since(t0).Seconds()
